@@ -205,4 +205,19 @@ def hsFinish (c : HConn) : View :=
   | none => c.view
   | some d => d.foldl (fun v x => portStatus v x.1 x.2) c.view
 
+/-- the view the `ConnectionUp` and `FeaturesReceived` handlers see: `_finish_connecting` raises both (:385-396) *before* it
+replays the deferred port statuses (:399-403), so it is the view as the handshake's features reply left it -/
+def hsUpView (c : HConn) : View := c.view
+
+/-- the views after each step of a replay: the k-th is what the handlers of the k-th replayed `PortStatus` event see
+(`handle_PORT_STATUS` applies the message, then raises the event) -/
+def scanStatus (v : View) : List (Nat × Port) → List View
+  | [] => []
+  | x :: xs => portStatus v x.1 x.2 :: scanStatus (portStatus v x.1 x.2) xs
+
+def hsReplayViews (c : HConn) : List View :=
+  match c.deferred with
+  | none => []
+  | some d => scanStatus c.view d
+
 end Pox.PortView
